@@ -187,6 +187,16 @@ func pwFamily(t *testing.T, r *run) {
 		return
 	}
 
+	// the first and last entries of both lists, always
+	for _, list := range [][]string{common, dict} {
+		for j := 0; j < 12 && j < len(list); j++ {
+			for _, pw := range []string{list[j], list[len(list)-1-j]} {
+				cw, dw := windows(pw)
+				do("entry-boundary", pw, nil, cw, dw)
+			}
+		}
+	}
+
 	seqs := []string{"qwertyuiop", "qwertzuiopü", "azertyuiop", "asdfghjklöä", "qsdfghjklm", "01234567890", "abcdefghijklmnopqrstuvwxyz", "yxcvbnm", "zxcvbnmasd"}
 	for i := 0; i < r.n; i++ {
 		var kind, pw string
